@@ -190,3 +190,14 @@ Qed.
 (* direct or mutual recursion is rejected *)
 Corollary reject_recursion p f : path p f f -> check p = false.
 Proof. intros H. destruct (check p) eqn:C; auto. exfalso. exact (acyclic_lemma p C f H). Qed.
+
+(* in an accepted program every assignment, at any nesting depth, targets a writable variable: never a constant,
+   a loop variable or (in an external function) a calldata argument; an immutable only inside the constructor;
+   storage / transient storage only above @view *)
+Lemma assign_targets_lemma p g k x e : check p = true -> In g (funs p) ->
+  (subs (SAssign k x e) (fbody g) \/ subs (SAug k x e) (fbody g)) -> writable g k = true.
+Proof.
+  intros C Hg Hs. pose proof (check_fn p g C Hg) as H1.
+  destruct Hs as [Hs|Hs]; destruct (chk_subs p g _ _ Hs _ H1) as [L' H2]; cbn in H2;
+    repeat (apply andb_prop in H2; destruct H2 as [H2 ?]); exact H2.
+Qed.
